@@ -50,15 +50,19 @@ CHECKS["C05"] = dict(
               "alteration classes and judges the recorded results of pkg/soc against the equation",
     level_text="TLC checks on the symbolic algebra (Sig(k,m) recovers k exactly on m) that a signed chunk is valid, parses back and "
                "that every single-field alteration invalidates it (MCChunk); ChunkGen enumerates 3 keys x 3 ids x wrapped payload "
-               "lengths x 32 alteration classes; chunkdrv runs soc.New/Sign/FromChunk/Valid/CreateAddress; ChunkTrace.tla evaluates "
+               "lengths x 32 alteration classes, SOCGen the same cases for keys with leading zero bytes in the secret scalar or in a "
+               "public coordinate (classes in which shortest-form and fixed-width encodings differ); chunkdrv runs soc.New/Sign/FromChunk/Valid/CreateAddress; ChunkTrace.tla evaluates "
                "ValidSOC over independently computed observables (signature recovers a key, address = keccak(id||recovered owner))",
     level_note="exploration: pure function, TLA+ is generator and oracle; byte positions inside a class are sampled from the seed, "
                "the recovery byte v is altered by fixed offsets. " + _TRUSTED,
     design=[dict(spec="MCChunk.tla", cfg="MCChunk.cfg", cfg_thorough="MCChunk_thorough.cfg", workers=8, timeout=600)],
     gen=dict(
-        quick=[dict(mode="exh", spec="ChunkGen.tla", cfg="ChunkGen.cfg", env={"VERIF_FAMILY": "soc"}, name="classes")],
+        quick=[dict(mode="exh", spec="ChunkGen.tla", cfg="ChunkGen.cfg", env={"VERIF_FAMILY": "soc"}, name="classes"),
+               dict(mode="exh", spec="SOCGen.tla", cfg="SOCGen.cfg", env={"VERIF_FAMILY": "soc"}, name="keyclasses")],
         thorough=[dict(mode="exh", spec="ChunkGen.tla", cfg="ChunkGen.cfg", env={"VERIF_FAMILY": "soc", "VERIF_THOROUGH": "1"},
-                       name="classes", timeout=900)]),
+                       name="classes", timeout=900),
+                  dict(mode="exh", spec="SOCGen.tla", cfg="SOCGen.cfg", env={"VERIF_FAMILY": "soc", "VERIF_THOROUGH": "1"},
+                       name="keyclasses", timeout=900)]),
     judge=dict(spec="ChunkTrace.tla", cfg="ChunkTrace.cfg"),
     corrupt=corrupt_field("soc", "valid", lambda e: not e["valid"]),
     selftest_scenarios=60,
@@ -67,10 +71,14 @@ CHECKS["C05"] = dict(
          "{8,9,40,CS+8} (thorough: +72,4104,CS+7; 4 repetitions) x alteration {none; id first/middle/last byte; signature r, s byte; "
          "v+{1,2,3,4,5,8,128,229,252,255}; wrapped span / first / last data byte; address first/middle/last byte; truncated below the "
          "minimum, by 1, extended by 1; address of another owner / another id; signature by another key, over another id, over "
-         "another wrapped address; zero signature}; distinct = distinct class record; every case signs and validates, so all count",
+         "another wrapped address; zero signature}; keyclasses: the same alterations for the first key found in a seeded stream with "
+         "exactly one leading zero byte in its secret scalar / public X / public Y (thorough: also two zero bytes, two numbers at once, "
+         "the second key of a class, more ids and lengths); distinct = distinct class record; every case signs and validates, so all count",
     exhaustive=dict(quick=False, thorough=False),
     assumptions=["keccak256 collision-free, secp256k1 signatures unforgeable on the sampled inputs",
-                 "keys and ids are derived from VERIF_SEED; the wrapped chunk is handed to soc.New with its reference BMT address"],
+                 "keys and ids are derived from VERIF_SEED; the wrapped chunk is handed to soc.New with its reference BMT address",
+                 "class keys are searched in a stream of candidates derived from VERIF_SEED (about 256 candidates per zero byte); the "
+                 "key's Ethereum address is evaluated independently from the 32-byte padded coordinates (btcec + x/crypto keccak)"],
 )
 
 
